@@ -49,7 +49,11 @@ from testtools import monkey
 from testtools.matchers import Equals
 from testtools.testresult import doubles
 
-KINDS = ["fail", "error", "skip", "xfail", "usuccess", "multi", "kbd", "sysexit"]
+KINDS = ["fail", "error", "skip", "xfail", "usuccess", "multi", "kbd", "sysexit", "cancel"]
+
+
+class Cancelled(BaseException):
+    """a BaseException that is neither KeyboardInterrupt nor SystemExit (like asyncio.CancelledError)"""
 K9 = [None] + KINDS
 ATTRS = ["ex", "nx", "cx"]
 STAGES = ["pre", "post", "test", "down"]
@@ -176,6 +180,8 @@ def do_raise(env, kind):
         raise KeyboardInterrupt()
     elif kind == "sysexit":
         raise SystemExit(3)
+    elif kind == "cancel":
+        raise Cancelled()
 
 
 class Fx(fixtures.Fixture):
@@ -425,7 +431,7 @@ def with_raise(ops, kind, first):
 
 
 def gen_stages():
-    vectors = [{}, {"C": "error", "A": "fail"}, {"E": "kbd"},
+    vectors = [{}, {"C": "error", "A": "fail"}, {"E": "kbd"}, {"C": "cancel"},
                {"A": "fail", "B": "skip", "C": "multi", "D": "sysexit", "E": "xfail"}]
     combos = [(None, None, t, d) for t in K9 for d in K9]
     combos += [(pos, s, t, d) for pos in ("pre", "post") for s in KINDS
@@ -526,6 +532,8 @@ def gen_histories():
         scenario(test=[FIXTURE_SHAPES[1], ["r", "xfail"]], down=[["c", "d", []], ["r", "error"]]),
         scenario(test=[["p", "cx"], ["r", "kbd"]], down=[["c", "d", [["k"]]]]),
         scenario(test=[["c", "a", [["r", "sysexit"]]], ["c", "b", []], ["r", "usuccess"]]),
+        scenario(pre=[["c", "a", [["k"]]], ["p", "nx"]], post=[["r", "cancel"]], test=[["c", "never", []]]),
+        scenario(test=[["c", "old", [["k"]]], ["p", "ex"], ["c", "bad", [["r", "cancel"]]]]),
         scenario(post=[FIXTURE_SHAPES[3]], test=[["c", "never", []]]),
     ]
     seqs = [s for n in (1, 2, 3) for s in itertools.product(FLAVOURS, repeat=n)]
